@@ -21,14 +21,16 @@ SELS = ["v", 2, ["u", "w"], [0, 1, 2]]
 
 def models(tier):
     def cfg(origins="{0,6,-10}", **c):
-        base = dict(OriginMode='"subtract"')
+        base = dict(OriginMode='"subtract"', MaxQ=1)
         base.update(c)
         return {"INIT": "Init", "NEXT": "Next", "DEFS": {"Origins": origins}, "CONSTANTS": base, "INVARIANTS": INV}
     if tier == "quick":
         return [("2 levels", cfg(N1=6, N2=4, MaxLev=2, MaxFine=1)),
-                ("3 levels", cfg(N1=4, N2=4, MaxLev=3, MaxFine=1, origins="{6}"))]
+                ("3 levels", cfg(N1=4, N2=4, MaxLev=3, MaxFine=1, origins="{6}")),
+                ("two queries on one selector", cfg(N1=4, N2=4, MaxLev=2, MaxFine=1, origins="{6}", MaxQ=2))]
     return [("2 levels", cfg(N1=6, N2=4, MaxLev=2, MaxFine=2)),
-            ("3 levels", cfg(N1=6, N2=4, MaxLev=3, MaxFine=1))]
+            ("3 levels", cfg(N1=6, N2=4, MaxLev=3, MaxFine=1)),
+            ("two queries on one selector", cfg(N1=6, N2=4, MaxLev=3, MaxFine=1, origins="{-10}", MaxQ=2))]
 
 
 class World(object):
@@ -62,36 +64,42 @@ class World(object):
 def run_scenario(chk, world, sc, cfgseed, axes, sel):
     cfg_, lat, flds, pck = world.get(sc, cfgseed, axes)
     a1, a2, a3 = axes
-    l = sc["qlev"]
-    dx = gamma.level_dx(cfg_, 3, l)
-    ne = lat.level_shape(l)[a3]
-    kz = 1 + cfgseed % (ne - 2)
-    idx = [0, 0, 0]
-    idx[a1], idx[a2], idx[a3] = sc["qcell"][0], sc["qcell"][1], kz
-    point = [cfg_.origin[d] + dx[d] * (idx[d] + 0.5) for d in range(3)]
     try:
-        with shims.pool_shim(shims.Scheduler()), core.quiet():
-            got = pck[sel](*point)
-        exc = None
+        with core.quiet():
+            probe = pck[sel]                 # ONE selector object for all the queries of the scenario
     except Exception as e:
-        exc = e
-    if sc["outside"]:
-        if exc is None:
-            return "point %r outside the domain was answered with %r" % (point, got)
-        return None
-    if exc is not None:
-        return "query %r at the centre of level-%d cell %r raised %s: %s" % (sel, l, idx, type(exc).__name__, str(exc)[:150])
-    names = sel if isinstance(sel, list) else [sel]
-    fis = [(FIELDS.index(n) if isinstance(n, str) else n) + 1 for n in names]
-    got = np.atleast_1d(np.asarray(got, dtype=float)).ravel()
-    if got.shape[0] != len(fis):
-        return "query %r returned %d values for %d fields" % (sel, got.shape[0], len(fis))
-    for g, fi in zip(got, fis):
-        want = float(flds.level(l, fi)[tuple(idx)])
-        scale = float(np.max(np.abs(flds.level(l, fi))))
-        if not abs(g - want) <= 1e-9 * max(1.0, scale):
-            return "query %r at the centre of level-%d cell %r (origin %r): %r, stored value %r" % (
-                sel, l, idx, cfg_.origin, float(g), want)
+        return "pck[%r] raised %s" % (sel, type(e).__name__)
+    for qi, q in enumerate(sc["asked"]):
+        l = q["lev"]
+        dx = gamma.level_dx(cfg_, 3, l)
+        ne = lat.level_shape(l)[a3]
+        kz = 1 + (cfgseed + qi) % (ne - 2)
+        idx = [0, 0, 0]
+        idx[a1], idx[a2], idx[a3] = q["cell"][0], q["cell"][1], kz
+        point = [cfg_.origin[d] + dx[d] * (idx[d] + 0.5) for d in range(3)]
+        try:
+            with shims.pool_shim(shims.Scheduler()), core.quiet():
+                got = probe(*point)
+            exc = None
+        except Exception as e:
+            exc = e
+        if q["outside"]:
+            if exc is None:
+                return "point %r outside the domain was answered with %r" % (point, got)
+            continue
+        if exc is not None:
+            return "query %d (%r) at the centre of level-%d cell %r raised %s: %s" % (qi + 1, sel, l, idx, type(exc).__name__, str(exc)[:150])
+        names = sel if isinstance(sel, list) else [sel]
+        fis = [(FIELDS.index(n) if isinstance(n, str) else n) + 1 for n in names]
+        got = np.atleast_1d(np.asarray(got, dtype=float)).ravel()
+        if got.shape[0] != len(fis):
+            return "query %r returned %d values for %d fields" % (sel, got.shape[0], len(fis))
+        for g, fi in zip(got, fis):
+            want = float(flds.level(l, fi)[tuple(idx)])
+            scale = float(np.max(np.abs(flds.level(l, fi))))
+            if not abs(g - want) <= 1e-9 * max(1.0, scale):
+                return "query %d of %d on one selector (%r) at the centre of level-%d cell %r (origin %r): %r, stored value %r" % (
+                    qi + 1, len(sc["asked"]), sel, l, idx, cfg_.origin, float(g), want)
     return None
 
 
@@ -130,8 +138,8 @@ def run(chk, replay):
         v = run_scenario(chk, world, sc, cfgseed, axes, sel)
         sigs = util.sig_str(sc["sig"], "list" if isinstance(sel, list) else type(sel).__name__, axes)
         triv = sc["sig"][0] == 1 and sc["sig"][3] == "origin0"
-        chk.executed(sigs, not triv, sample={"mesh": sc["mesh"], "origin": sc["origin"], "qlev": sc["qlev"],
-                                             "qcell": sc["qcell"], "outside": sc["outside"], "sel": sel, "axes": axes})
+        chk.executed(sigs, not triv, sample={"mesh": sc["mesh"], "origin": sc["origin"], "asked": sc["asked"],
+                                             "sel": sel, "axes": axes})
         chk.traces += 1
         if v:
             chk.violation(sigs, v, {"sc": sc, "cfgseed": cfgseed, "axes": axes, "sel": sel, "sigs": sigs})
